@@ -6,45 +6,71 @@ Statement of the property on the model: for every group occurrence `o = (count t
 `resolve (buildMap occs) fuel o.1 o.2 = some o.2` – the classes generated for that group of that message carry the group's OWN
 definition (traits with types, positions = schema order, mandatory flags, nested groups, at every depth).
 
-The property is FALSE of f8c: the key of the common group map is `group_hash`, which (1) sees only the member TAGS and the
-nested hashes – not the order of the members, not their mandatory flags – and (2) is a GF(2)-affine 32-bit function of them,
-so different member sets collide, and colliding partners can be computed.  What holds, and is proved here:
+History: on the original f8c the property was FALSE – the key of the common group map was the bare `group_hash`, which sees only
+member tags and nested hashes and is GF(2)-affine, so definitions differing in order / flags always, and different member sets
+sometimes, shared the first definition (known finding `group-hash-collision`, witnesses in corpus/C14).  The fix
+"f8c shares generated group traits only between identical definitions" (compare on a hash hit, probe the next key) is in /repo
+and the model (Compiler/GroupHash.lean) is the fixed code.  Now proved, with NO hypothesis on the hash:
 
-* `C14_sound`             every occurrence is generated from its own definition whenever the hash separates the definitions
-                          of each count tag (`HashInjOn`); this is the full property with the known-finding class
-                          `group-hash-collision` = `¬ HashInjOn occs` excluded.
-* `C14_first_wins`        in general the generated definition is that of the FIRST occurrence with the same (count tag, hash).
-* `C14_hash_blind`        the hash is blind to everything but tags and nested hashes (all inputs).
-* `C14_finding_blind_shares`  hence any two definitions of a count tag with the same member tags share the metadata of the
-                          first, whatever their order / mandatory flags / types (all inputs).
-* `C14_collision_lemma`, `C14_finding_collision_any`  rothash is affine: for every pair of running hashes and every value
-                          there is exactly one colliding partner value, given by a closed formula.
-* `C14_finding_*`         concrete witnesses (replayed on the real compiler from corpus/C14).
+* `C14_sound`             for every closed insertion sequence of fewer than 2^32 groups every occurrence is generated from its
+                          own definition at every depth.  (`Closed` is a theorem of the pipeline, `Props.C13`; the bound is what
+                          the 32-bit probing loop itself needs to terminate, see `C14_probe_exits`.)
+* `C14_share_only_same`   two occurrences that resolve to the same generated definition have the same definition.
+* `C14_probe_exits`       boundedness of the probe: with fewer than 2^32 stored variants the loop leaves through its own exit
+                          condition (free slot or identical definition) after at most `variants` increments.
+* `C14_key_stable`, `C14_key_inserted`   the key a definition gets when inserted is the key every later probe finds, and the
+                          definition stays stored there (justifies modelling the `_hash` member as a recomputation).
+* `C14_own_slot`, `C14_stored_was_inserted`   the map after all insertions: each definition under its key; nothing else in it.
+* `C14_hash_blind`, `C14_hash_member_set`, `C14_collision_lemma`, `C14_rothash_affine`, `C14_key_collision_any`,
+  `C14_difference_linear`, `C14_key_collision_witness`   facts about the KEY `group_hash` (unchanged by the fix): it is blind to
+                          order / flags / types, affine over xor, and colliding partners are computable – which is why the key
+                          alone must not decide sharing.  The check still uses `partner` to manufacture colliding definitions.
+* `C14_fixed_*`           regression theorems: the former finding witnesses (collision {2,100}/{3,8261}, order-only, flag-only,
+                          nested replacement, and the all-inputs "same tags" family) now resolve to their own definitions.
 -/
 namespace Fix8Model.Props.C14
 open Fix8Model.Compiler
 
-/-- the property, for schemas outside the known-finding class -/
-theorem C14_sound (occs : List (Nat × GSpec)) (hcl : Closed occs) (hinj : HashInjOn occs)
+/-- the property -/
+theorem C14_sound (occs : List (Nat × GSpec)) (hcl : Closed occs) (hb : occs.length < 2 ^ 32)
     (o : Nat × GSpec) (ho : o ∈ occs) (fuel : Nat) (hf : o.2.depth ≤ fuel) :
     resolve (buildMap occs) fuel o.1 o.2 = some o.2 :=
-  resolve_own occs hcl hinj fuel o ho hf
+  resolve_own occs hcl hb fuel o ho hf
 
-/-- "share metadata only if same definition": two occurrences that resolve to the same generated definition are equal -/
-theorem C14_share_only_same (occs : List (Nat × GSpec)) (hcl : Closed occs) (hinj : HashInjOn occs)
-    (a b : Nat × GSpec) (ha : a ∈ occs) (hb : b ∈ occs) (fuel : Nat) (hfa : a.2.depth ≤ fuel) (hfb : b.2.depth ≤ fuel)
+/-- "share metadata only if same definition" -/
+theorem C14_share_only_same (occs : List (Nat × GSpec)) (hcl : Closed occs) (hb : occs.length < 2 ^ 32)
+    (a b : Nat × GSpec) (ha : a ∈ occs) (hbm : b ∈ occs) (fuel : Nat) (hfa : a.2.depth ≤ fuel) (hfb : b.2.depth ≤ fuel)
     (h : resolve (buildMap occs) fuel a.1 a.2 = resolve (buildMap occs) fuel b.1 b.2) : a.2 = b.2 := by
-  rw [C14_sound occs hcl hinj a ha fuel hfa, C14_sound occs hcl hinj b hb fuel hfb] at h
+  rw [C14_sound occs hcl hb a ha fuel hfa, C14_sound occs hcl hb b hbm fuel hfb] at h
   exact Option.some.inj h
 
-/-- what `find_group` returns in general: the first definition inserted under the same count tag and hash -/
-theorem C14_first_wins (occs : List (Nat × GSpec)) (t : Nat) (s : GSpec) :
-    findSpec (buildMap occs) t (groupHash s) =
-      (occs.find? (fun o => decide (o.1 = t ∧ groupHash o.2 = groupHash s))).map (·.2) :=
-  findSpec_buildMap occs t (groupHash s)
+/-- boundedness / termination of the probing loop -/
+theorem C14_probe_exits (cg : CommonGroups) (s : GSpec) (hlen : cg.length < 2 ^ 32) :
+    ∃ j, j ≤ cg.length ∧ probe cg s = groupHash s + BitVec.ofNat 32 j ∧
+      (∀ i, i < j → goodSlot cg s (groupHash s + BitVec.ofNat 32 i) = false) ∧ goodSlot cg s (probe cg s) = true :=
+  probe_exits cg s hlen
 
-/-- non-vacuity of `C14_sound`: a closed occurrence list with a nested group, two messages sharing one definition and a
-second, hash-distinct definition of the same count tag -/
+/-- the exit condition is "free or identical" -/
+theorem C14_exit_condition (cg : CommonGroups) (s : GSpec) (k : W) :
+    goodSlot cg s k = true ↔ (cgSpec cg k = none ∨ cgSpec cg k = some s) := goodSlot_true_iff cg s k
+
+/-- the stored `_hash` of a definition never goes stale -/
+theorem C14_key_stable (cg : CommonGroups) (s s' : GSpec) (hlen : cg.length < 2 ^ 32) (hs : cgSpec cg (probe cg s) = some s) :
+    probe (ins cg s') s = probe cg s ∧ cgSpec (ins cg s') (probe cg s) = some s := probe_stable cg s s' hlen hs
+
+theorem C14_key_inserted (cg : CommonGroups) (s : GSpec) (hlen : cg.length < 2 ^ 32) :
+    probe (ins cg s) s = probe cg s ∧ cgSpec (ins cg s) (probe cg s) = some s := probe_inserted cg s hlen
+
+/-- after all insertions every definition sits under its own key … -/
+theorem C14_own_slot (occs : List (Nat × GSpec)) (hb : occs.length < 2 ^ 32) (o : Nat × GSpec) (ho : o ∈ occs) :
+    findSpec (buildMap occs) o.1 (probeKey (buildMap occs) o.1 o.2) = some o.2 := findSpec_own occs hb o ho
+
+/-- … and nothing is stored that was not inserted under that count tag -/
+theorem C14_stored_was_inserted (occs : List (Nat × GSpec)) (t : Nat) (k : W) (x : GSpec)
+    (h : findSpec (buildMap occs) t k = some x) : (t, x) ∈ occs := findSpec_buildMap_mem occs t k x h
+
+/-- non-vacuity: a closed occurrence list with a nested group, two messages sharing one definition and a second definition of
+the same count tag -/
 def exInner : GSpec := .mk [⟨3, 7, 1, 0, 5⟩] []
 def exA : GSpec := .mk [⟨2, 1, 1, 0, 5⟩, ⟨100, 15, 2, 0, 4⟩, ⟨301, 1, 3, 0, 12⟩] [(301, exInner)]
 def exB : GSpec := .mk [⟨2, 1, 1, 0, 5⟩, ⟨101, 15, 2, 0, 4⟩] []
@@ -56,88 +82,87 @@ example : Closed exOccs := by
   rcases ho with h | h | h | h | h <;> subst h <;> simp [exA, exB, exInner, GSpec.groups] at hg
   all_goals (subst hg; simp [exOccs, exInner])
 
-example : HashInjOn exOccs := by
-  have key : ∀ a ∈ exOccs, ∀ b ∈ exOccs, (a.1 == b.1 && groupHash a.2 == groupHash b.2) = true → GSpec.beq a.2 b.2 = true := by decide
-  intro a ha b hb h1 h2
-  exact GSpec.beq_eq _ _ (key a ha b hb (by simp [h1, h2]))
+example : exOccs.length < 2 ^ 32 := by decide
+example : resolve (buildMap exOccs) 2 300 exB = some exB ∧ resolve (buildMap exOccs) 2 300 exA = some exA := by decide
 
-example : resolve (buildMap exOccs) 2 300 exB = some exB := by decide
+/-! ### facts about the key -/
 
-/-- (b1) the hash depends only on the member tags and the nested hashes -/
+/-- the hash depends only on the member tags and the nested hashes -/
 theorem C14_hash_blind (ts1 ts2 : List Trait) (gs1 gs2 : List (Nat × GSpec))
     (ht : ts1.map (·.tag) = ts2.map (·.tag)) (hg : gs1.map (fun g => groupHash g.2) = gs2.map (fun g => groupHash g.2)) :
     groupHash (.mk ts1 gs1) = groupHash (.mk ts2 gs2) := groupHash_congr ts1 ts2 gs1 gs2 ht hg
 
-/-- (b1) in terms of member sets: the presence set is kept ordered by tag (proved of the pipeline in `Props.C13.C13_group_rows`),
-so two definitions with the same SET of member tags – written in any order, with any flags – and the same nested groups hash alike -/
+/-- in terms of member sets: presence sets are ordered by tag (`Props.C13.C13_group_rows`), so two definitions with the same SET
+of member tags – written in any order, with any flags – and the same nested groups hash alike -/
 theorem C14_hash_member_set (ts1 ts2 : List Trait) (gs : List (Nat × GSpec))
     (h1 : (ts1.map (·.tag)).Pairwise (· < ·)) (h2 : (ts2.map (·.tag)).Pairwise (· < ·))
     (h : ∀ x, x ∈ ts1.map (·.tag) ↔ x ∈ ts2.map (·.tag)) :
     groupHash (.mk ts1 gs) = groupHash (.mk ts2 gs) := groupHash_member_set ts1 ts2 gs h1 h2 h
 
-/-- (b1) FINDING, for all inputs: if two messages define the group `t` with the same member tags, then – whatever the order
-of the members (positions), their mandatory flags, types and component indices – the second message's group is generated
-with the traits of the first -/
-theorem C14_finding_blind_shares (t : Nat) (ts1 ts2 : List Trait) (ht : ts1.map (·.tag) = ts2.map (·.tag)) :
-    resolve (buildMap [(t, .mk ts1 []), (t, .mk ts2 [])]) 1 t (.mk ts2 []) = some (.mk ts1 []) := by
-  have hh : groupHash (.mk ts2 []) = groupHash (.mk ts1 []) := groupHash_congr ts2 ts1 [] [] ht.symm rfl
-  have hf := C14_first_wins [(t, .mk ts1 []), (t, .mk ts2 [])] t (.mk ts2 [])
-  rw [hh] at hf
-  simp only [List.find?, and_self, decide_true, Option.map_some] at hf
-  obtain ⟨e, he, hes⟩ := findGroup_of_findSpec _ _ _ _ hf
-  simp only [resolve]
-  rw [hh, he]
-  simp only [hes, GSpec.traits, GSpec.groups, optMapGroups, Option.map_some]
-
-/-- the instance "order only": members 2 and 100 in the two possible orders -/
-theorem C14_finding_order_only :
-    let g1 : GSpec := .mk [⟨2, 1, 1, 0, 5⟩, ⟨100, 15, 2, 0, 4⟩] []      -- <field 2 required=Y/> <field 100 required=N/>
-    let g2 : GSpec := .mk [⟨2, 1, 2, 0, 5⟩, ⟨100, 15, 1, 0, 4⟩] []      -- <field 100 required=N/> <field 2 required=Y/>
-    g1 ≠ g2 ∧ resolve (buildMap [(300, g1), (300, g2)]) 1 300 g2 = some g1 := by decide
-
-/-- the instance "mandatory flag only" -/
-theorem C14_finding_flag_only :
-    let g1 : GSpec := .mk [⟨2, 1, 1, 0, 5⟩, ⟨100, 15, 2, 0, 5⟩] []      -- 100 required
-    let g2 : GSpec := .mk [⟨2, 1, 1, 0, 5⟩, ⟨100, 15, 2, 0, 4⟩] []      -- 100 optional
-    g1 ≠ g2 ∧ resolve (buildMap [(300, g1), (300, g2)]) 1 300 g2 = some g1 := by decide
-
-/-- (b2) the collision lemma: for ANY running hashes `r r'` and value `v` the value `v ^ L(r ^ r')` collides, and only it -/
+/-- for ANY running hashes `r r'` and value `v` the value `v ^ L(r ^ r')` collides, and only it -/
 theorem C14_collision_lemma (r r' v v' : W) : rothash r v = rothash r' v' ↔ v' = v ^^^ rhLin (r ^^^ r') :=
   rothash_collide r r' v v'
 
-/-- linearity of the mixing step -/
 theorem C14_rothash_affine (r r' v v' : W) : rothash r v ^^^ rothash r' v' = rhLin (r ^^^ r') ^^^ (v ^^^ v') :=
   rothash_xor r r' v v'
 
-/-- manufactured collisions for plain groups: given ANY member tags `xs ++ [x]` of one definition and ANY other prefix `ys`,
-the last tag `partner` makes the two definitions collide -/
-theorem C14_finding_collision_any (xs ys : List Nat) (x : Nat) :
+/-- manufactured key collisions for plain groups: given ANY member tags `xs ++ [x]` of one definition and ANY other prefix `ys`,
+the last tag `partner xs ys x` makes the two keys equal (the check builds its collision family with it) -/
+theorem C14_key_collision_any (xs ys : List Nat) (x : Nat) :
     foldTags 0 (xs ++ [x]) = foldTags 0 (ys ++ [partner xs ys x]) := by
   rw [foldTags_snoc, foldTags_snoc, rothash_collide]
   simp only [partner, BitVec.ofNat_toNat, BitVec.setWidth_eq]
 
-/-- equal-length definitions: the hash difference is a linear function of the tag differences alone -/
 theorem C14_difference_linear (xs ys : List Nat) (h : xs.length = ys.length) :
     foldTags 0 xs ^^^ foldTags 0 ys = linFold 0 (List.zipWith (fun x y => BitVec.ofNat 32 x ^^^ BitVec.ofNat 32 y) xs ys) := by
   have := foldTags_xor xs ys 0 0 h
   simpa using this
 
-/-- the concrete witness of DESIGN.md: member sets {2,100} and {3,8261} -/
-theorem C14_finding_collision_witness :
+theorem C14_key_collision_witness :
     foldTags 0 [2, 100] = 0x23036606#32 ∧ foldTags 0 [3, 8261] = 0x23036606#32 ∧ partner [2] [3] 100 = 8261 := by decide
 
-/-- … and what the compiler does with it: the second message's group {3, 8261} is generated with the members {2, 100} -/
-theorem C14_finding_collision :
+/-! ### regressions: the former finding witnesses -/
+
+/-- for ALL inputs: two definitions of a count tag with the same member tags (formerly always shared) are generated separately,
+each from its own traits -/
+theorem C14_fixed_blind_separate (t : Nat) (ts1 ts2 : List Trait) :
+    resolve (buildMap [(t, .mk ts1 []), (t, .mk ts2 [])]) 1 t (.mk ts1 []) = some (.mk ts1 []) ∧
+    resolve (buildMap [(t, .mk ts1 []), (t, .mk ts2 [])]) 1 t (.mk ts2 []) = some (.mk ts2 []) := by
+  have hcl : Closed [(t, GSpec.mk ts1 []), (t, GSpec.mk ts2 [])] := by
+    intro o ho g hg
+    simp only [List.mem_cons, List.not_mem_nil, or_false] at ho
+    rcases ho with rfl | rfl <;> simp [GSpec.groups] at hg
+  have hb : [(t, GSpec.mk ts1 []), (t, GSpec.mk ts2 [])].length < 2 ^ 32 := by simp
+  exact ⟨C14_sound _ hcl hb (t, .mk ts1 []) (by simp) 1 (by simp [GSpec.depth, GSpec.depth.depthList]),
+         C14_sound _ hcl hb (t, .mk ts2 []) (by simp) 1 (by simp [GSpec.depth, GSpec.depth.depthList])⟩
+
+/-- members {2,100} and {3,8261}: equal keys, the second definition is stored under key + 1, both generated from themselves -/
+theorem C14_fixed_collision :
     let g1 : GSpec := .mk [⟨2, 1, 1, 0, 5⟩, ⟨100, 15, 2, 0, 4⟩] []
     let g2 : GSpec := .mk [⟨3, 7, 1, 0, 5⟩, ⟨8261, 11, 2, 0, 4⟩] []
-    g1 ≠ g2 ∧ groupHash g1 = groupHash g2 ∧ resolve (buildMap [(300, g1), (300, g2)]) 1 300 g2 = some g1 := by decide
+    let m := buildMap [(300, g1), (300, g2)]
+    g1 ≠ g2 ∧ groupHash g1 = groupHash g2 ∧ probeKey m 300 g1 = 0x23036606#32 ∧ probeKey m 300 g2 = 0x23036607#32 ∧
+      resolve m 1 300 g1 = some g1 ∧ resolve m 1 300 g2 = some g2 := by decide
 
-/-- nested definitions are reached through the stored spec: a collision at the outer level replaces the nested group too -/
-theorem C14_finding_nested_replaced :
+theorem C14_fixed_order_only :
+    let g1 : GSpec := .mk [⟨2, 1, 1, 0, 5⟩, ⟨100, 15, 2, 0, 4⟩] []      -- <field 2 required=Y/> <field 100 required=N/>
+    let g2 : GSpec := .mk [⟨2, 1, 2, 0, 5⟩, ⟨100, 15, 1, 0, 4⟩] []      -- <field 100 required=N/> <field 2 required=Y/>
+    let m := buildMap [(300, g1), (300, g2)]
+    g1 ≠ g2 ∧ groupHash g1 = groupHash g2 ∧ resolve m 1 300 g1 = some g1 ∧ resolve m 1 300 g2 = some g2 := by decide
+
+theorem C14_fixed_flag_only :
+    let g1 : GSpec := .mk [⟨2, 1, 1, 0, 5⟩, ⟨100, 15, 2, 0, 5⟩] []      -- 100 required
+    let g2 : GSpec := .mk [⟨2, 1, 1, 0, 5⟩, ⟨100, 15, 2, 0, 4⟩] []      -- 100 optional
+    let m := buildMap [(300, g1), (300, g2)]
+    g1 ≠ g2 ∧ groupHash g1 = groupHash g2 ∧ resolve m 1 300 g1 = some g1 ∧ resolve m 1 300 g2 = some g2 := by decide
+
+/-- a collision at the outer level no longer replaces the nested group either -/
+theorem C14_fixed_nested :
     let n1 : GSpec := .mk [⟨5, 1, 1, 0, 5⟩] []
     let n2 : GSpec := .mk [⟨6, 1, 1, 0, 5⟩, ⟨7, 1, 2, 0, 4⟩] []
     let g1 : GSpec := .mk [⟨2, 1, 1, 0, 5⟩, ⟨301, 1, 2, 0, 12⟩] [(301, n1)]
-    let g2 : GSpec := .mk [⟨2, 1, 2, 0, 5⟩, ⟨301, 1, 1, 0, 12⟩] [(301, n1)]
-    g1 ≠ g2 ∧ resolve (buildMap [(301, n1), (300, g1), (301, n1), (300, g2), (301, n2)]) 2 300 g2 = some g1 := by decide
+    let g2 : GSpec := .mk [⟨2, 1, 2, 0, 5⟩, ⟨301, 1, 1, 0, 12⟩] [(301, n2)]
+    let m := buildMap [(301, n1), (300, g1), (301, n2), (300, g2)]
+    g1 ≠ g2 ∧ resolve m 2 300 g1 = some g1 ∧ resolve m 2 300 g2 = some g2 := by decide
 
 end Fix8Model.Props.C14
